@@ -242,6 +242,16 @@ pub fn run(ctx: &Ctx) {
             }
         }
     }
+    // 6. the CLI (`harper-cli lint`): not run (its report is ariadne's terminal rendering); a text
+    //    search that it still hands its lints to `remove_overlaps` before reporting them
+    {
+        let main = std::fs::read_to_string("/repo/harper-cli/src/main.rs").unwrap_or_default();
+        let lint_at = main.find("linter.lint(&doc)");
+        let ro_at = main.find("remove_overlaps(&mut lints);");
+        let report_at = main.find("Report::build");
+        let ok = matches!((lint_at, ro_at, report_at), (Some(a), Some(b), Some(c)) if a < b && b < c);
+        sess.monitor("harper-cli/src/main.rs: linter.lint(&doc) … remove_overlaps(&mut lints) … Report::build, in this order (text search)", ok);
+    }
     sess.finish(
         "corpus; all lists of ≤4 spans with endpoints ≤3 (quick) / ≤4 (thorough), exhaustively; random lists of 2–24 spans (nested, touching, equal, zero-width, duplicated); span lists of real lints (all rules on) of rule-test sentences; harper_wasm::Linter::lint on sentences of > 40 words with several unknown / repeated words inside (disjoint, and = the model's remove_overlaps of the group's raw lints). Non-trivial = at least one lint dropped; distinct by the op line.",
         true,
